@@ -842,7 +842,7 @@ INLINE_ANCHOR_PREFIXES = (
     "xs::store::Store::read_sync", "xs::store::Store::head", "xs::store::Store::iter_frames", "xs::store::Store::get", "xs::store::ttl::parse_ttl",
     "xs::store::ttl::TTL::to_query", "xs::store::ttl::TTL::from_query", "<xs::store::ttl::TTL as serde::ser::Serialize>::serialize", "xs::store::ReadOptions::to_query_string",
     "xs::store::idx_topic_key_from_frame", "xs::store::idx_context_key_from_frame", "xs::store::idx_topic_key_prefix", "xs::store::idx_topic_frame_id_from_key",
-    "xs::store::idx_context_key_range_end", "xs::api::handle", "xs::api::match_route", "xs::handlers::handler::Handler::", "xs::handlers::serve::",
+    "xs::store::idx_context_key_range_end", "xs::store::spawn_gc_worker", "xs::api::handle", "xs::api::match_route", "xs::handlers::handler::Handler::", "xs::handlers::serve::",
     "xs::generators::serve::", "xs::commands::serve::", "xs::nu::util::write_pipeline_to_cas", "<xs::nu::commands::")
 # crate-local functions the rules identify by their call sites (never inlined even when they have a single caller)
 ROLE_FNS = ("xs::commands::serve::run_command", "xs::handlers::handler::EngineWorker::new", "xs::store::spawn_gc_worker", "xs::store::is_expired",
